@@ -236,6 +236,7 @@ type runResult struct {
 	nAckedNil   int
 	nAckedErr   int
 	obsoleted   int
+	restarts    int
 	dups        int // measured for the non-triviality rule, see dupTail
 	maxSeg      int
 	dbImages    int // DB variant: images recovered and checked
@@ -495,6 +496,25 @@ func runScript(p Plan, res *runResult) {
 		case OpNext:
 			closeCur()
 			next := cur.num + 1 + st.Gap
+			if st.Restart {
+				// no faults while the store is "down"
+				inj.armed.Store(false)
+				if err := m.Close(); err != nil {
+					res.setErr(fmt.Errorf("harness: Manager.Close before restart: %v", err))
+					return
+				}
+				logs, err := wal.Scan(opts.Primary, opts.Secondary)
+				if err != nil {
+					res.setErr(fmt.Errorf("harness: wal.Scan: %v", err))
+					return
+				}
+				if m, err = wal.Init(opts, logs); err != nil {
+					res.setErr(fmt.Errorf("harness: wal.Init on restart: %v", err))
+					return
+				}
+				inj.armed.Store(true)
+				res.restarts++
+			}
 			if st.Obsolete {
 				min := next
 				if st.Keep > 0 {
@@ -513,6 +533,14 @@ func runScript(p Plan, res *runResult) {
 				d, ms := dupTail(mem)
 				res.dups, res.maxSeg = max(res.dups, d), max(res.maxSeg, ms)
 				for _, dl := range del {
+					// "all virtual WALs less than minUnflushedNum are obsolete": a
+					// file of a newer WAL still holds batches that exist nowhere else.
+					if int(dl.NumWAL) >= s.minUnflushed {
+						res.setErr(fmt.Errorf("Manager.Obsolete(%d) returned %s (WAL %d) for deletion: only WALs below %d are obsolete",
+							s.minUnflushed, dl.Path, dl.NumWAL, s.minUnflushed))
+						finish()
+						return
+					}
 					_ = dl.FS.Remove(dl.Path)
 				}
 			}
@@ -972,6 +1000,9 @@ func exec(p Plan) (evid.Outcome, error) {
 	}
 	if res.obsoleted > 0 {
 		lab("obsolete-called")
+	}
+	if res.restarts > 0 {
+		lab("manager-restarted")
 	}
 	if p.Cfg.Recyclable > 0 && res.obsoleted > 0 {
 		lab("recycling-possible")
